@@ -500,6 +500,12 @@ func genStore(r *rand.Rand, emit func(core.Case), n int, thorough bool) {
 			ops = append(ops, "block ch="+fmtBatch(batch))
 			applyHint(members, batch)
 			h++
+			if r.Intn(14) == 0 {
+				// the operator rolls the last block back; the chain then re-applies a (possibly different) block
+				ops = append(ops, "rollback", fmt.Sprintf("load h=%d", h-1), fmt.Sprintf("load h=%d", h), fmt.Sprintf("load h=%d", h+1))
+				h--
+				batchHist["rollback"]++
+			}
 			if b == bootAt {
 				ops = append(ops, "bootstrap", fmt.Sprintf("load h=%d", h-1), fmt.Sprintf("load h=%d", h), fmt.Sprintf("load h=%d", h+1))
 				batchHist["bootstrap"]++
@@ -555,7 +561,7 @@ func genGlue(r *rand.Rand, emit func(core.Case), n int) {
 		"genesis ih=0 v=" + a + ":1", "genesis ih=1 v=-", "genesis ih=1 v=" + a + ":0", "genesis ih=1 v=" + a + ":-1", "genesis ih=3 v=" + a + ":5",
 		"genesis ih=1 v=" + a + ":5," + a + ":6", "load h=x", "load h=-1", "load h=0", "load h=3", "load h=4", "load h=9223372036854775807",
 		"prune from=0 to=5", "prune from=5 to=5", "prune from=3 to=4", "prune from=1 to=900000", "prune from=3 to=5", "info from=-2 n=65", "info from=0 n=8",
-		"bootstrap", "bootstrap x=1", "handshake ih=2 v=- iv=-", "handshake ih=2 v=- iv=" + a + ":4 cp=1", "handshake ih=1 v=" + a + ":3 iv=- cp=0",
+		"bootstrap", "bootstrap x=1", "rollback", "rollback now=1", "handshake ih=2 v=- iv=-", "handshake ih=2 v=- iv=" + a + ":4 cp=1", "handshake ih=1 v=" + a + ":3 iv=- cp=0",
 		"handshake ih=1 v=" + a + ":3 iv=" + a + ":0", "handshake ih=0 v=- iv=" + a + ":1", "handshake ih=3 v=" + a + ":3",
 		"frobnicate", "block ch=" + a + ":0", "block ch=" + a + ":7", "block",
 	}
